@@ -7,7 +7,8 @@ Every random choice comes from the `random.Random` handed in, so a case replays 
 from fractions import Fraction
 from .common import rat
 
-NAME_POOL = ["Chris", "alice", "Bob", "dave", "Erin", "zed", "Ann", "_x", "Ömer", "b b", "10", "9a"]
+# names chosen so that index, sort and hash orders differ, and so that some names are substrings of others
+NAME_POOL = ["Chris", "alice", "Bob", "dave", "Erin", "zed", "Ann", "_x", "Ömer", "b b", "10", "9a", "Anna", "a", "C1", "C10"]
 
 
 def gen_names(rng, n):
